@@ -240,6 +240,7 @@ func (e *Eng) EarlyExits(l *Loop) []ssa.Instruction {
 type Row struct {
 	Name   string
 	Assume []LitM
+	Opt    []LitM // assumptions applied where the function tests them, without requiring that it does
 	Ret    [][]string // per result index: allowed canonical renderings (nil = any)
 	Must   []func(ssa.Instruction) bool
 	Never  []func(ssa.Instruction) bool
@@ -327,11 +328,12 @@ func (o *Ob) Table(fn *ssa.Function, key string, rows []Row) {
 		if missing {
 			continue
 		}
-		cut := e.CutContradicting(row.Assume...)
+		all := append(append([]LitM{}, row.Assume...), row.Opt...)
+		cut := e.CutContradicting(all...)
 		r := (&Walk{Fn: fn, Cut: cut}).FromEntry()
 		rets := r.Returns()
 		var ds []string
-		for _, a := range row.Assume {
+		for _, a := range all {
 			ds = append(ds, a.Desc)
 		}
 		under := strings.Join(ds, " ∧ ")
@@ -359,7 +361,7 @@ func (o *Ob) Table(fn *ssa.Function, key string, rows []Row) {
 					}
 					seenV[v] = true
 					// a returned condition is decided by the row's assumptions like a branch on it would be
-					if bv, ok := e.BoolUnder(fn, val, row.Assume); ok {
+					if bv, ok := e.BoolUnder(fn, val, all); ok {
 						v = "false"
 						if bv {
 							v = "true"
@@ -377,7 +379,7 @@ func (o *Ob) Table(fn *ssa.Function, key string, rows []Row) {
 					}
 					ok := match(v)
 					if !ok && v != "true" && v != "false" {
-						xs := e.XsAtFix(r, ret, val, func(x ssa.Value) (bool, bool) { return e.BoolUnder(fn, x, row.Assume) })
+						xs := e.XsAtFix(r, ret, val, func(x ssa.Value) (bool, bool) { return e.BoolUnder(fn, x, all) })
 						ok = len(xs) > 0
 						for _, f := range xs {
 							if !match(f) {
@@ -552,4 +554,39 @@ func fnFirst(fn *ssa.Function) ssa.Instruction {
 		return fn.Blocks[0].Instrs[0]
 	}
 	return nil
+}
+
+// DeepInstrs lists the instructions of f and of the module functions it calls statically, to the given depth.
+func (e *Eng) DeepInstrs(f *ssa.Function, depth int) []ssa.Instruction {
+	var out []ssa.Instruction
+	seen := map[*ssa.Function]bool{}
+	var rec func(g *ssa.Function, d int)
+	rec = func(g *ssa.Function, d int) {
+		if g == nil || seen[g] || len(g.Blocks) == 0 {
+			return
+		}
+		seen[g] = true
+		for _, in := range AllInstrs(g) {
+			out = append(out, in)
+			if d > 0 {
+				if ci, ok := in.(ssa.CallInstruction); ok {
+					if c := ci.Common().StaticCallee(); c != nil && strings.HasPrefix(fnPkgPath(c), Mod) {
+						rec(c, d-1)
+					}
+				}
+			}
+		}
+	}
+	rec(f, depth)
+	return out
+}
+
+// anyErr matches the rendering of a freshly constructed (non-nil) error, however it is built.
+const anyErr = `~(fmt\.Errorf|errors\.New|am/notify\.NewErrorWithReason)\(.*`
+
+func isErrCtor(s string) bool { return regexpMatch(anyErr[1:], s) }
+
+// wraps: the rendering of fmt.Errorf("…%w…", …, x) — x reported with context.
+func wraps(x string) string {
+	return `~fmt\.Errorf\(".*%w.*", \[(.*, )?` + regexpQuote(x) + `\]\)`
 }
